@@ -38,15 +38,39 @@ Technique (numbers: ALLOWED devices of RULES_GUIDE.md, "What counts as static he
        with an argument is a text term, lemmas S1-S4 and S6 decide `" " in`, partition, slicing, membership), 6 (grammar
        alias / keyword / arity; reference spelling table), sibling agreement as equality of the builder-call terms.
   R4   5 (per valued opcode / transform key / pivot frame-header setting, byte argument symbolic), 3 (the term that reaches
-       the step / set_option is classified structurally), 6 (E3 reads one entry of a constant table of the code).  Lemmas:
-       E1 `repr(b)[2:-1]` is an escape-encoding of b; E2 `b.decode(codec)` / `str(b, codec)` is not; E3 a decoding followed
+       the step / set_option is classified structurally, `_conversion`), 6 (E3 reads one entry of a constant table of the
+       code; slice bounds, the constant that pins repr() and its escaped length, codec names).  Lemmas:
+       E1 `repr(b)[2:-1]` is an escape-encoding of b, E1b so is `repr(P + b + S)[2 + e(P) : -1 - e(S)]`, E1c so is
+       `b.decode("latin-1").encode("unicode_escape").decode(<ascii compatible>)`; E2 `b.decode(codec)` / `str(b, codec)` is
+       not; E3 a decoding followed
        by character-wise operations with constant operands (`.translate(T)`, `.replace(a, b)` with a one-character a) turns
        a backslash byte into T[92] / b / itself - it is not an escape-encoding unless that image is a spelling the STRING
        token decoder reads back as one backslash (str.translate looks up *integer* ordinals only).  A chain whose
        backslash image is such a spelling, and any other function of the argument: undecided.
+  R11  5 (the same vocabulary as R4: one obligation per generator site), 3 (a: the term handed to the builder is classified as
+       identity / one of the three byte-wise escapers / a character-wise mapping, `_conversion`; b: the builder parameter
+       - DataTransformBlock(steps=..) through add_step / add_termination, set_option - is followed ONCE with the value
+       symbolic, known by its type tag only, and must hand that very value to value_to_string; c: the rewrites
+       value_to_string applies to a str argument are the per-path terms of the encoder analysis of rules/c12.py, walked
+       under the named assumption "the argument is str"), 2 (paths of the builder and of the encoder), 4 (finite abstract
+       domain for the escaper's output, `_Tokens`: per printable character "can be a plain token of its own" or not, the
+       backslash byte is the pair of two backslashes, a backslash is always the first character of a token; a rewrite whose
+       pattern is backslash + X is checked against it by C12's `_splits_escaped_backslash`), 6 (replace operands, slice
+       bounds, pin constant, codec names; for a mapping the table entries of the backslash and of the character X the
+       analysed rewrite names).  Lemmas E1 / E1b / E1c (which escaper leaves which quote plain; = L1 / L1b of C12), E4
+       (token structure), E5 (= L2b of C12: backslash + X with X plain splits an escaped backslash; X always escaped: every
+       match is the pair), E6 (replace(backslash, R) turns the backslash token into R + R), E7 (quote escape; patterns
+       outside printable ASCII never match).  Violated: an escaper / mapping that can emit X unescaped meets a rewrite
+       backslash + X -> R (R not starting with a backslash) on the path its result takes; E6; the always-escaped apostrophe
+       pair rewritten to anything but the apostrophe; an escaper whose slice does not strip exactly the delimiters, whose
+       first decoding raises for bytes >= 0x80, or whose text is turned back into bytes (escaped twice by the bytes path).
+       Discharged: bytes handed over unchanged (the bytes path is C12.R1's, imported by C11.R6), or a known escaper all of
+       whose rewrites on the str path match whole tokens.  Undecided: conversion, builder or encoder path not understood,
+       other rewrites, a mapping that passes (R4 does not know whether it escapes everything).
   R5   5 (per opcode name, build selector, transform key, DNS setting), 3 (builder calls as terms compared with the reading
        of the opcode tables; sibling settings compared by structural equality of the terms - when they differ only in the
-       function that encodes the argument the comparison is undecided, each encoding being R4's), 4 (container kind: lemma
+       function that encodes the argument - handing the bytes over unchanged is one of them - the comparison is undecided, each
+       encoding being R4's / R11's), 4 (container kind: lemma
        K, a dict / set keeps one line per name).
   R6   1, 2 (CFG dominance of the attachment by a non-emptiness condition: truthiness or a spelled-out `len(x) > 0` /
        `x != []` form), 3 (values the child is fed from).  That an attached data transform has statements is R10's.
@@ -1837,8 +1861,12 @@ def run(ctx):
         "entry the producer can emit is taken through the consumer and the emitted builder call is looked up, as a term, in "
         "the grammar (alias, keyword, arity; grammar rules are addressed by the block-alias path that leads to them, never by "
         "a rule name that cannot reach the tree); the term in which a byte argument reaches a block must be the argument itself "
-        "or repr(argument)[2:-1] (escape-encoded) and must not be a decoding, nor a decoding followed by a character-wise "
-        "mapping (translate with a constant table / single-character replace) that leaves the backslash raw; the http-get / "
+        "or an escape-encoding of it (repr(argument)[2:-1], repr pinned by a constant with a double quote, the unicode_escape codec chain) "
+        "and must not be a decoding, nor a decoding followed by a character-wise "
+        "mapping (translate with a constant table / single-character replace) that leaves the backslash raw; an argument the generator has "
+        "already escaped is composed with the path of the literal encoder value_to_string its type takes (read from the analysed function): "
+        "no rewrite on that path may match anything but a whole token the escaper emitted - an escaper that can leave the apostrophe "
+        "unescaped (unpinned repr, unicode_escape) must not meet a rewrite of backslash + apostrophe, which would split an escaped backslash; the http-get / "
         "http-post and x86 / x64 sibling "
         "settings must render every kind of entry into equal terms and as the opcode tables prescribe; add_step / "
         "add_termination attach the argument in both nullness cases as required; blocks are attached only when non-empty "
@@ -1848,8 +1876,13 @@ def run(ctx):
     )
     rep.not_decided = ["equality of the parsed-back values for all configurations", "options the generator chooses to skip",
                        "escaping of static header/parameter decorations (raw text on both sides of the round trip)",
-                       "byte arguments that reach a block through any function other than identity, repr(b)[2:-1], a decoding, or a decoding followed by character-wise "
-                       "mappings with constant operands (undecided, not judged); of a character-wise mapping only the image of the backslash is judged",
+                       "byte arguments that reach a block through any function other than identity, the three byte-wise escapers (unpinned / pinned repr slice, unicode_escape "
+                       "codec chain), a decoding, or a decoding followed by character-wise "
+                       "mappings with constant operands (undecided, not judged); of a character-wise mapping only the image of the backslash (R4) and of the characters "
+                       "a rewrite of the encoder's str path names (R11) is judged",
+                       "R11: the bytes path of value_to_string (C12.R1), that the tokens an escaper emits are read back by the decoder (C12.R2 / R3), which encoder makes the STRING "
+                       "tokens of a builder (C11.R6: a builder that does not hand the value itself to value_to_string is undecided), rewrites of the str path other than "
+                       "backslash + X / the backslash alone / the quote escape (undecided); str-valued settings and the decoded static header / parameter lines (raw text)",
                        "that a data-transform block has exactly one termination statement (only the block without any statement is judged, R10)",
                        "equality of two different encodings of the same argument in sibling settings (undecided; each is judged by R4)",
                        "interaction of several entries of one program beyond a BUILD entry followed by a step (order, repetition): "
@@ -1862,8 +1895,15 @@ def run(ctx):
                         "argument kinds of program entries: flag opcodes carry True, valued opcodes a bytes value, transform keys a bytes value",
                         "text lemmas S1-S6 on concatenations with constant segments (substring of a segment; first occurrence inside the leading segment; equality refuted by "
                         "prefix / suffix / constant length; slicing inside the outer segments; case mapping distributes; prefix / suffix decided by the outer segments)",
-                        "lemma E1: for b: bytes, repr(b)[2:-1] is the escape-encoded body of the bytes literal (every byte spelled as itself or as a backslash escape; that the STRING "
-                        "token builder value_to_string copes with the bare double quote / \\' a single-quoted literal can contain is the business of C11 / C12)",
+                        "lemma E1: for b: bytes, repr(b)[2:-1] is the escape-encoded body of the bytes literal (every byte spelled as itself or as a backslash escape; what the literal "
+                        "encoder value_to_string then does to that text - the bare double quote, the \\' pair or plain apostrophe it can contain - is judged by R11 for the path the text takes, and by C12.R1 for bytes)",
+                        "lemmas E1 / E1b / E1c (= L1 / L1b of rules/c12.py): CPython's repr(bytes) picks the double-quote delimiter exactly for a value with ' and without \" and then leaves "
+                        "the apostrophe unescaped, never escapes the double quote, and is pinned to the single-quote style by a concatenated constant that contains a double quote; the "
+                        "unicode_escape codec over the latin-1 decoding leaves both quotes plain; all of them write the backslash byte as two backslashes and a backslash only ever starts a token (E4)",
+                        "lemmas E5 - E7 (E5 = L2b of rules/c12.py, evaluated by its `_splits_escaped_backslash`): left-to-right, non-overlapping str.replace; the STRING decoder reads a backslash "
+                        "byte from two backslashes or backslash x5c only",
+                        "R11 reads the rewrites of value_to_string from the encoder analysis of rules/c12.py (`_encoder_paths` under the named assumption that the argument is a str; its trusted base applies); "
+                        "the builder primitives are followed with the handed value symbolic (type tag only)",
                         "lemma E2: b.decode(codec) / str(b, codec) leaves backslash, quote and control bytes as raw characters (not an escape-encoding)",
                         "lemma E3: str.translate(T) replaces a character c by T[ord(c)] when T has the integer key ord(c) (None deletes, an integer stands for that character) and keeps it "
                         "otherwise - one-character string keys are never consulted; str.replace(a, b) with a one-character a acts on each character on its own; so the image of a backslash "
@@ -1878,7 +1918,8 @@ def run(ctx):
     r1(ctx, g)
     r2(ctx, g)
     r3(ctx, g)
-    r4_r5(ctx)
+    sites = r4_r5(ctx)
+    r11(ctx, sites)
     r6(ctx)
     r8(ctx)
     r9(ctx, g)
@@ -2337,16 +2378,14 @@ def _depends_on(term, x, depth=0) -> bool:
 
 def _arg_kind(term, arg) -> str:
     """How the symbolic byte argument `arg` reaches a builder, read off the term that is handed over:
-    'bytes' - the argument itself (the STRING builder escape-encodes bytes); 'escaped' - repr(arg)[2:-1] (lemma E1);
-    'decoded' - arg.decode(..) / str(arg, codec) (lemma E2: not escape-encoded); 'lost' - a term in which the argument
+    'bytes' - the argument itself (the STRING builder escape-encodes bytes); 'escaped' - repr(arg)[2:-1], the pinned
+    form repr(<constant with a double quote> + arg)[k:-1] or the unicode_escape codec chain (lemmas E1, E1b, E1c; see
+    `_conversion`); 'decoded' - arg.decode(..) / str(arg, codec) (lemma E2: not escape-encoded); 'lost' - a term in which the argument
     does not occur; 'unknown:..' - any other function of the argument (nothing is claimed)."""
     if term is arg:
         return "bytes"
-    if isinstance(term, _Obj) and term.callee == "slice" and len(term.args) == 4:
-        base, lo, hi, step = term.args
-        if isinstance(base, _Obj) and base.callee == "repr" and len(base.args) == 1 and base.args[0] is arg and not base.kwargs and \
-                lo == 2 and hi == -1 and step in (None, 1) and not _opaque(lo) and not _opaque(hi):
-            return "escaped"
+    if _conversion(term, arg)[0] == "escaper":
+        return "escaped"  # E1 / E1b / E1c: one of the three byte-wise escapers, delimiters sliced off exactly
     if _is_decoding(term, arg):
         return "decoded"
     img = _backslash_image(term, arg)
@@ -2367,30 +2406,36 @@ def _is_decoding(term, arg) -> bool:
     return isinstance(term, _Obj) and term.callee == "str" and len(term.args) + len(term.kwargs) >= 2 and bool(term.args) and term.args[0] is arg
 
 
-def _backslash_image(term, arg, depth=0) -> Optional[str]:
+def _backslash_image(term, arg) -> Optional[str]:
+    """Lemma E3: the text a backslash byte of `arg` is turned into by a decoding followed by character-wise operations."""
+    return _char_image(term, arg, "\\")
+
+
+def _char_image(term, arg, ch: str, depth=0) -> Optional[str]:
     """Lemma E3.  For a term that is a decoding of `arg` followed by character-wise text operations whose operands are
     constants of the code - `.translate(T)` with a constant table, `.replace(a, b)` with a one-character a - the text that
-    a backslash byte of the argument is turned into; None when the term is not such a chain.  The operations act on every
+    the byte with the (latin-1) character `ch` is turned into; None when the term is not such a chain.  The operations act on every
     character independently of its neighbours, so the image of the one character is found by applying them to it:
-    decoding gives the backslash itself (E2); `translate` replaces it by T[92] when the table has the *integer* key 92
+    decoding gives the character itself (E2); `translate` replaces it by T[ord] when the table has that *integer* key
     (str.translate looks characters up by ordinal: a key that is a one-character string is never consulted; a value None
     deletes the character, an integer value stands for that character) and leaves it alone otherwise; `replace` replaces
-    it when a is that character.  Only this one entry of the table is looked at - no inputs are tried."""
+    it when a is that character.  Only the entry of the table for the character asked about is looked at (the callers ask
+    about the backslash and about the characters the analysed code itself names in a rewrite) - no inputs are tried."""
     if depth > 8 or not isinstance(term, _Obj):
         return None
     if _is_decoding(term, arg):
-        return "\\"
+        return ch
     if not isinstance(term.recv, _Obj) or term.kwargs:
         return None
-    inner = _backslash_image(term.recv, arg, depth + 1)
+    inner = _char_image(term.recv, arg, ch, depth + 1)
     if inner is None:
         return None
     meth = term.callee.rsplit(".", 1)[-1]
     if meth == "translate" and len(term.args) == 1 and isinstance(term.args[0], dict) and not _has_opaque(term.args[0]):
         table, out = term.args[0], []
-        for ch in inner:
-            if ord(ch) in table:
-                v = table[ord(ch)]
+        for c in inner:
+            if ord(c) in table:
+                v = table[ord(c)]
                 if v is None:
                     continue
                 if isinstance(v, int) and not isinstance(v, bool) and 0 <= v < 0x110000:
@@ -2399,7 +2444,7 @@ def _backslash_image(term, arg, depth=0) -> Optional[str]:
                     return None
                 out.append(v)
             else:
-                out.append(ch)
+                out.append(c)
         return "".join(out)
     if meth == "replace" and len(term.args) == 2 and all(isinstance(a, str) for a in term.args) and len(term.args[0]) == 1:
         return inner.replace(term.args[0], term.args[1])
@@ -2424,6 +2469,191 @@ def _val_symbols(term, depth=0) -> list:
     for q in list(term.args) + list(term.kwargs.values()) + [term.recv]:
         out += _val_symbols(q, depth + 1)
     return out
+
+
+# ---- the escaper a generator site applies to a byte argument (R4: is it an escape-encoding?  R11: which tokens does it emit?)
+# Reference facts about CPython's byte-wise escapers (the same as lemmas L1 / L1b / L2 of rules/c12.py):
+#  E1   repr(b)[2:-1] is the body of the bytes literal.  Its quote style is NOT pinned: repr(bytes) picks the double-quote
+#       delimiter exactly for a value that contains ' and no " - the apostrophe is then emitted as a plain character of its
+#       own; for every other value it is the pair backslash + '.  The double quote is never escaped by repr(bytes).
+#  E1b  repr(P + b + S)[2 + e(P) : -1 - e(S)] with constants P, S one of which contains a double quote: the delimiter is
+#       always ', so every apostrophe of b is the pair backslash + '; e(X) = escaped length of the constant X in that style
+#  E1c  b.decode("latin-1").encode("unicode_escape").decode(<ascii compatible>): the same tokens, except that BOTH quotes
+#       are plain characters; decoding b as ascii / utf-8 instead raises for bytes >= 0x80 (generation fails)
+#  E4   in all three the text is a sequence of tokens, one per byte: a printable ASCII character standing for itself, a pair
+#       backslash + one of \ ' t n r, or backslash + x + two hex digits.  A backslash is always the FIRST character of a token
+#       and the backslash byte is the pair backslash + backslash.
+class _Tokens:
+    """Abstract description of the text a byte-wise escaper emits (finite domain: per printable character `plain token of
+    its own possible` or not; lemma E4).  Duck-compatible with rules/c12.py `_Escaper`."""
+
+    def __init__(self, key: str, name: str, plain_quote: bool):
+        self.key, self.name, self.plain_quote = key, name, plain_quote
+
+    def plain(self, ch) -> bool:
+        """`ch` can occur in the escaped text as a token of its own (hence directly after an escaped backslash)."""
+        return len(ch) == 1 and 0x20 <= ord(ch) <= 0x7E and ch != "\\" and (ch != "'" or self.plain_quote)
+
+
+class _MappedTokens(_Tokens):
+    """The text of a decoding followed by character-wise operations with constant operands that turn the backslash byte into
+    two backslashes (lemma E3): a printable character is a plain token of its own iff its image is the character itself."""
+
+    def __init__(self, term, arg):
+        _Tokens.__init__(self, "mapping", "the character-wise mapping applied to the decoded value", False)
+        self.term, self.arg = term, arg
+
+    def plain(self, ch) -> bool:
+        return len(ch) == 1 and 0x20 <= ord(ch) <= 0x7E and ch != "\\" and _char_image(self.term, self.arg, ch) == ch
+
+
+_REPR_UNPINNED = _Tokens("repr-unpinned", "repr() whose quote style is not pinned (a value with ' and without \" is delimited by double quotes)", True)
+_REPR_PINNED = _Tokens("repr-pinned", "repr() pinned to the single-quote style", False)
+_UNICODE_ESCAPE = _Tokens("unicode-escape", "the unicode_escape codec over the latin-1 decoding", True)
+_ASCII_COMPATIBLE = ("ascii", "iso8859-1", "utf-8")
+
+
+def _net_slice(term):
+    """Constant [a:-b] slice layers on top of a term -> (a, -b, inner) with the offsets added up; None when a layer is not of
+    that form (a bound that is not a constant of the code, a step, a bound counted from the other end)."""
+    lo = hi = 0
+    while isinstance(term, _Obj) and term.callee == "slice" and len(term.args) == 4 and not term.kwargs:
+        base, a, b, st = term.args
+        a, b = (0 if a is None else a), (0 if b is None else b)
+        if st not in (None, 1) or type(st) is bool or type(a) is not int or type(b) is not int or a < 0 or b > 0:
+            return None
+        lo, hi, term = lo + a, hi + b, base
+    return lo, hi, term
+
+
+def _cat_parts(term, depth=0) -> Optional[list]:
+    """`x + y + ...` -> the operands in order (None: not a concatenation the walker kept as a term)."""
+    if isinstance(term, _Obj) and term.callee == "binop Add" and len(term.args) == 2 and depth < 6:
+        out = []
+        for q in term.args:
+            sub = _cat_parts(q, depth + 1)
+            out += sub if sub is not None else [q]
+        return out
+    return None
+
+
+def _codec_step(term):
+    """x.decode(C) / x.encode(C) / codecs.decode(x, C) / codecs.encode(x, C) / str(x, C) / bytes(x, C) with a constant codec
+    name -> (x, direction, canonical codec name); None otherwise.  The stdlib codec registry is a reference table."""
+    if not isinstance(term, _Obj):
+        return None
+    meth = term.callee.rsplit(".", 1)[-1]
+    args, kw = list(term.args), dict(term.kwargs)
+    if meth in ("decode", "encode") and isinstance(term.recv, _Glob):
+        if term.recv.name != "codecs" or not args:
+            return None
+        inner, args, direction = args[0], args[1:], meth
+    elif meth in ("decode", "encode") and term.recv is not None:
+        inner, direction = term.recv, meth
+    elif term.callee in ("str", "bytes") and len(args) == 2 and not kw:
+        inner, args, direction = args[0], args[1:], ("decode" if term.callee == "str" else "encode")
+    else:
+        return None
+    if len(args) == 1 and not kw:
+        name = args[0]
+    elif not args and set(kw) == {"encoding"}:
+        name = kw["encoding"]
+    elif not args and not kw:
+        name = "utf-8"
+    else:
+        return None  # an error handler: not modelled
+    if not isinstance(name, str):
+        return None
+    import codecs
+
+    try:
+        return inner, direction, codecs.lookup(name).name
+    except LookupError:
+        return None
+
+
+def _esc_len(b: bytes) -> int:
+    """Length of the escaped text of the constant `b` (a constant of the analysed code) inside a single-quoted bytes repr."""
+    return len(repr(b'"' + b)) - 4
+
+
+def _conversion(term, arg) -> Tuple[str, object, str]:
+    """What a generator site does to the symbolic byte argument `arg` before handing it to a builder, read off the term
+    that is handed over -> (kind, info, description):
+      'identity' - the argument itself (type bytes);
+      'escaper'  - one of the three byte-wise escapers with the delimiters sliced off exactly (info: `_Tokens`; type str);
+      'bad'      - an escaper was located and is wrong (info: why): the slice does not strip exactly the delimiters (E1 / E1b),
+                   or the first decoding of the codec chain raises for bytes >= 0x80 (E1c);
+      'plain'    - a decoding / a decoding with a character-wise mapping that leaves the backslash raw (R4's lemmas E2 / E3);
+      'mapping'  - a decoding with a character-wise mapping (constant operands) that doubles the backslash (info: `_MappedTokens`;
+                   type str): whether it escapes everything else that needs escaping is not known (R4: undecided), but which
+                   printable characters it leaves plain is read from the constants;
+      'lost'     - the argument does not occur in the term;   'unknown' - any other function of the argument."""
+    if term is arg:
+        return "identity", None, "the bytes value itself"
+    if not _depends_on(term, arg):
+        return "lost", None, _show(term)[:60]
+    if _is_decoding(term, arg):
+        return "plain", None, "a decoding of the bytes value (lemma E2)"
+    img = _backslash_image(term, arg)
+    if img is not None and img not in _BACKSLASH_SPELLINGS:
+        return "plain", None, f"a decoding whose character-wise mapping turns a backslash byte into {img!r} (lemma E3)"
+    if img == "\\\\":
+        return "mapping", _MappedTokens(term, arg), "a decoding followed by a character-wise mapping with constant operands that doubles the backslash"
+    # ---- escaped text turned back into bytes: <escaper>.encode(<ascii compatible>) / arg.decode(latin-1).encode(unicode_escape)
+    st = _codec_step(term)
+    if st is not None and st[1] == "encode":
+        below, twice = st[0], None
+        if st[2] in _ASCII_COMPATIBLE:
+            k, _i, d = _conversion(below, arg)
+            twice = f"{d}.encode({st[2]!r})" if k == "escaper" else None
+        elif st[2] == "unicode-escape":
+            st2 = _codec_step(below)
+            twice = "<arg>.decode('iso8859-1').encode('unicode-escape')" if st2 is not None and st2[0] is arg and st2[1:] == ("decode", "iso8859-1") else None
+        if twice:
+            return "bad", (f"{twice}: the escaped text is handed over as a *bytes* value, so the bytes path of the literal encoder escapes it a second time - "
+                           "every backslash of an escape token is doubled (lemma E4) and the token decodes to its characters, not to the byte"), twice
+    ns = _net_slice(term)
+    if ns is None:
+        return "unknown", None, _show(term)[:60]
+    lo, hi, inner = ns
+    # ---- repr(<constant> + arg + <constant>)[a:-b]     (str(b) is repr(b) for a bytes value)
+    if isinstance(inner, _Obj) and inner.callee in ("repr", "str") and len(inner.args) == 1 and not inner.kwargs and inner.recv is None:
+        parts = _cat_parts(inner.args[0]) or [inner.args[0]]
+        at = [i for i, q in enumerate(parts) if q is arg]
+        if len(at) != 1 or not all(isinstance(q, bytes) for i, q in enumerate(parts) if i != at[0]):
+            return "unknown", None, _show(term)[:60]
+        pre, post = b"".join(parts[:at[0]]), b"".join(parts[at[0] + 1:])
+        desc = f"repr({(repr(pre) + ' + ') if pre else ''}<arg>{(' + ' + repr(post)) if post else ''})[{lo}:{hi if hi else ''}]"
+        pinned = b'"' in pre + post
+        if not pinned and b"'" in pre + post:
+            return "unknown", None, desc  # the quote style depends on the value and so does the escaped length of the constant
+        need = (2 + _esc_len(pre), -1 - _esc_len(post))
+        if (lo, hi) != need:
+            return "bad", (f"{desc}: the slice must strip exactly the two-character opener, the constant(s) around the value and the closing quote, i.e. [{need[0]}:{need[1]}] "
+                           "(lemma E1): characters of the delimiters stay in the text or characters of the escaped value are cut"), desc
+        return "escaper", (_REPR_PINNED if pinned else _REPR_UNPINNED), desc
+    # ---- arg.decode(latin-1).encode(unicode_escape).decode(<ascii compatible>)
+    chain, y = [], inner
+    while len(chain) < 6:
+        st = _codec_step(y)
+        if st is None:
+            break
+        chain.append((st[1], st[2]))
+        y = st[0]
+    if chain and y is arg:
+        chain.reverse()  # innermost first
+        desc = "<arg>" + "".join(f".{d}({c!r})" for d, c in chain) + (f"[{lo}:{hi if hi else ''}]" if (lo, hi) != (0, 0) else "")
+        if len(chain) == 3 and [d for d, _ in chain] == ["decode", "encode", "decode"] and chain[1][1] == "unicode-escape":
+            c1, c3 = chain[0][1], chain[2][1]
+            if c1 in ("ascii", "utf-8"):
+                return "bad", f"{desc}: decoding the bytes value as {c1} raises for (sequences of) bytes >= 0x80 - generation fails; the value must be decoded byte-wise (latin-1; lemma E1c)", desc
+            if c1 == "iso8859-1" and c3 in _ASCII_COMPATIBLE:
+                if (lo, hi) != (0, 0):
+                    return "bad", f"{desc}: the codec adds no delimiters, the slice cuts characters of the escaped value (lemma E1c)", desc
+                return "escaper", _UNICODE_ESCAPE, desc
+        return "unknown", None, desc
+    return "unknown", None, _show(term)[:60]
 
 
 def _client_cases(ctx) -> List[Tuple[str, str, list, object]]:
@@ -2476,8 +2706,8 @@ def _abstract_encoding(v, arg, depth=0):
         return v
     if isinstance(v, (list, tuple)):
         return type(v)(_abstract_encoding(x, arg, depth + 1) for x in v)
-    if isinstance(v, _Obj) and not isinstance(v, _Sym) and v.cls is None and _depends_on(v, arg):
-        return _Op("some function of the argument")
+    if v is arg or (isinstance(v, _Obj) and not isinstance(v, _Sym) and v.cls is None and _depends_on(v, arg)):
+        return _Op("the argument, as it is or encoded")  # handing the bytes over unchanged is one of the encodings (R4 / R11)
     return v
 
 
@@ -2613,15 +2843,22 @@ def r4_r5(ctx):
     f = ctx.repo.func("c2profile.C2Profile.from_beacon_config")
     client = {}
     n = 0
+    # what R11 looks at: site label -> {"unknown": [why]} / {"data": [(datum, symbolic argument, term handed over, (builder class, primitive, statement name))]}
+    sites: Dict[str, dict] = collections.OrderedDict()
     for label in ("SETTING_C2_REQUEST", "SETTING_C2_POSTREQ"):
         an = client[label] = _client_analysis(ctx, label)
+        site = sites[label] = {"what": "transform arguments", "unknown": [], "data": []}
         for name in ("prepend", "append", "header", "parameter"):
             n += 1
             case = an.get(name.upper())
             if case is None or "unknown" in case:
                 ctx.undecided("R4", "TAINT", f, f"{label} valued step {name}", "cannot follow from_beacon_config for a program entry " + name.upper() + ": " + (case or {}).get("unknown", "not an opcode of the reference tables"))
+                site["unknown"].append(f"{name}: " + (case or {}).get("unknown", "not an opcode of the reference tables"))
                 continue
             terms = [t for o in case["paths"] for t in _step_arg_terms(o, name)]
+            site["data"] += [(f"{name} step", case["arg"], t, ("DataTransformBlock", "steps", name)) for t in terms]
+            if not terms:
+                site["unknown"].append(f"{name}: the argument does not reach a data-transform block (see R5)")
             kinds = sorted({_arg_kind(t, case["arg"]) for t in terms})
             if any(k in _NOT_ENCODED for k in kinds):
                 ctx.ob("R4", "TAINT", f, f"{label} valued step {name}", False,
@@ -2631,21 +2868,28 @@ def r4_r5(ctx):
                               f"the argument of the {name} step does not reach a data-transform block in a form the rule knows ({kinds or 'no such step'}; see R5)")
             else:
                 ctx.ob("R4", "TAINT", f, f"{label} valued step {name}", True,
-                       f"the byte argument of a {name.upper()} entry reaches the data-transform block as {kinds}: escape-encoded (the raw bytes, which the STRING builder encodes, or repr(arg)[2:-1], lemma E1)")
+                       f"the byte argument of a {name.upper()} entry reaches the data-transform block as {kinds}: escape-encoded (the raw bytes, which the STRING builder encodes, or one of the byte-wise escapers of lemmas E1 / E1b / E1c; what the literal encoder then does to that text is R11's)")
     ctx.rep.count("valued_step_sites", n, floor=2)
     # process-inject transforms
     pi = {}
     for key in ("SETTING_PROCINJ_TRANSFORM_X86", "SETTING_PROCINJ_TRANSFORM_X64"):
         an = pi[key] = _procinj_analysis(ctx, key)
         unknown = [f"{k}: {c['unknown']}" for k, c in an.items() if "unknown" in c]
+        site = sites[key] = {"what": "transform arguments", "unknown": list(unknown), "data": []}
         if unknown:
             ctx.undecided("R4", "TAINT", f, f"{key} arguments", "cannot follow from_beacon_config for a transform entry: " + "; ".join(unknown)[:300])
             continue
         seen, raised = {}, []
         for k, c in an.items():
             raised += [r for r, _o, _p in c["paths"] if r]
-            ks = {_arg_kind(x, c["arg"]) for _r, opts, _p in c["paths"] for prim, name, x in opts if prim == "set_option" and name == k}
+            handed = [x for _r, opts, _p in c["paths"] for prim, name, x in opts if prim == "set_option" and name == k]
+            ks = {_arg_kind(x, c["arg"]) for x in handed}
             seen[k] = sorted(ks)
+            site["data"] += [(f"{k} option", c["arg"], x, ("StageTransformBlock", "set_option", k)) for x in handed]
+            if not handed:
+                site["unknown"].append(f"{k}: the argument does not reach a set_option call")
+        if raised:
+            site["unknown"].append(f"generation raises {sorted(set(raised))} (R4)")
         if raised:
             ctx.ob("R4", "TAINT", f, f"{key} arguments", False, f"generation raises {sorted(set(raised))} for a prepend/append entry of the transform")
         elif any(k in _NOT_ENCODED for ks in seen.values() for k in ks):
@@ -2654,19 +2898,25 @@ def r4_r5(ctx):
         elif any(not ks or any(x not in ("bytes", "escaped") for x in ks) for ks in seen.values()):
             ctx.undecided("R4", "TAINT", f, f"{key} arguments", f"the prepend/append arguments reach set_option as {seen}: a form the rule does not know (or not at all)")
         else:
-            ctx.ob("R4", "TAINT", f, f"{key} arguments", True, f"prepend/append bytes are escape-encoded before set_option ({seen}; lemma E1)")
+            ctx.ob("R4", "TAINT", f, f"{key} arguments", True, f"prepend/append bytes are escape-encoded before set_option or handed over as bytes ({seen}; lemmas E1 / E1b / E1c)")
     # pivot frame headers: a bytes value handed to a global option
     for key in ("SETTING_TCP_FRAME_HEADER", "SETTING_SMB_FRAME_HEADER"):
         if key not in _settings_enum(ctx):
             continue
         arg = _Val(f"bytes value of {key}", "bytes")
+        site = sites[key] = {"what": "value", "unknown": [], "data": []}
         try:
             paths = _generate(ctx, [(key, arg)])
         except Unknown as e:
             ctx.undecided("R4", "TAINT", f, f"{key} value", f"cannot follow from_beacon_config for the setting: {e}")
+            site["unknown"].append(str(e))
             continue
         raised = sorted({r.raised for r in paths if r.raised})
-        terms = [x for r in paths for ev in _prim_events(r, prims=("set_option",)) for x in [_ev_value(ev)] if _depends_on(x, arg)]
+        handed = [(ev, x) for r in paths for ev in _prim_events(r, prims=("set_option",)) for x in [_ev_value(ev)] if _depends_on(x, arg)]
+        terms = [x for _ev, x in handed]
+        site["data"] += [("option value", arg, x, (ev.recv.cls, "set_option", _ev_name(ev))) for ev, x in handed]
+        if raised or not handed:
+            site["unknown"].append(f"generation raises {raised} (R4)" if raised else "the value does not reach a set_option call")
         kinds = sorted({_arg_kind(t, arg) for t in terms})
         if raised:
             ctx.ob("R4", "TAINT", f, f"{key} value", False, f"generation raises {raised} for a frame-header value")
@@ -2675,7 +2925,7 @@ def r4_r5(ctx):
         elif not kinds or any(k not in ("bytes", "escaped") for k in kinds):
             ctx.undecided("R4", "TAINT", f, f"{key} value", f"the value does not reach a set_option call in a form the rule knows ({kinds or 'not emitted'})")
         else:
-            ctx.ob("R4", "TAINT", f, f"{key} value", True, f"the bytes value reaches set_option as {kinds}: escape-encoded (the raw bytes, which the STRING builder encodes, or repr(value)[2:-1], lemma E1)")
+            ctx.ob("R4", "TAINT", f, f"{key} value", True, f"the bytes value reaches set_option as {kinds}: escape-encoded (the raw bytes, which the STRING builder encodes, or one of the byte-wise escapers of lemmas E1 / E1b / E1c; what the literal encoder then does to that text is R11's)")
     # ---- R5 siblings
     for label, parent in (("SETTING_C2_REQUEST", "HttpGetBlock"), ("SETTING_C2_POSTREQ", "HttpPostBlock")):
         diffs, unknown = [], []
@@ -2712,7 +2962,7 @@ def r4_r5(ctx):
                 (encodings if ta == tb else diffs).append(f"{case_label}: get={sa} post={sb}")
         if not diffs and encodings:
             ctx.undecided("R5", "AGREE", f, "SETTING_C2_REQUEST ~ SETTING_C2_POSTREQ",
-                          "the two client settings emit the same statements but encode the entry's argument by different functions (judged one by one in R4): " + "; ".join(encodings)[:400])
+                          "the two client settings emit the same statements but encode the entry's argument differently - by different functions, or one hands the bytes over unchanged (judged one by one in R4 / R11): " + "; ".join(encodings)[:400])
         else:
             ctx.ob("R5", "AGREE", f, "SETTING_C2_REQUEST ~ SETTING_C2_POSTREQ", not diffs,
                    "the http-get and http-post client settings render every kind of program entry into the same terms (decorations, blocks, flag steps, valued-step escaping)" if not diffs else
@@ -2721,8 +2971,8 @@ def r4_r5(ctx):
     if any("unknown" in c for c in list(x86.values()) + list(x64.values())):
         ctx.undecided("R5", "AGREE", f, "PROCINJ_TRANSFORM_X86 ~ X64", "one of the process-inject transform settings could not be followed")
     else:
-        def sig(an):
-            return {k: sorted(_show([r, [(p, nm, x) for p, nm, x in opts]]) for r, opts, _p in c["paths"]) for k, c in an.items()}
+        def sig(an, abstract=False):
+            return {k: sorted(_show([r, [(p, nm, _abstract_encoding(x, c["arg"]) if abstract else x) for p, nm, x in opts]]) for r, opts, _p in c["paths"]) for k, c in an.items()}
 
         def parents(an):
             return sorted({p for c in an.values() for _r, _o, ps in c["paths"] for p in ps})
@@ -2730,9 +2980,15 @@ def r4_r5(ctx):
         same = sig(x86) == sig(x64)
         names = parents(x86) == [("ProcessInjectBlock", "transform_x86")] and parents(x64) == [("ProcessInjectBlock", "transform_x64")]
         ok = same and names
-        ctx.ob("R5", "AGREE", f, "PROCINJ_TRANSFORM_X86 ~ X64", ok,
-               "the two process-inject transform settings render a prepend / append entry into the same terms, each under its own block name" if ok else
-               f"the x86 and x64 process-inject transform settings differ: x86={sig(x86)} attached {parents(x86)}; x64={sig(x64)} attached {parents(x64)}"[:500])
+        if names and not same and sig(x86, True) == sig(x64, True):
+            # the same options with the argument in the same places, encoded by two different functions (or handed over
+            # unchanged in one of them): each encoding is judged on its own by R4 / R11, their equality is not decided here
+            ctx.undecided("R5", "AGREE", f, "PROCINJ_TRANSFORM_X86 ~ X64",
+                          f"the two settings emit the same options but encode the entry's argument differently (judged one by one in R4 / R11): x86={sig(x86)} x64={sig(x64)}"[:500])
+        else:
+            ctx.ob("R5", "AGREE", f, "PROCINJ_TRANSFORM_X86 ~ X64", ok,
+                   "the two process-inject transform settings render a prepend / append entry into the same terms, each under its own block name" if ok else
+                   f"the x86 and x64 process-inject transform settings differ: x86={sig(x86)} attached {parents(x86)}; x64={sig(x64)} attached {parents(x64)}"[:500])
     dns = {}
     unknown = []
     keys = sorted(k[len("SETTING_DNS_BEACON_"):] for k in _settings_enum(ctx) if k.startswith("SETTING_DNS_BEACON_"))
@@ -2758,6 +3014,238 @@ def r4_r5(ctx):
         ok = len(dns) >= 6 and not bad
         ctx.ob("R5", "AGREE", f, "DNS_BEACON_* siblings", ok,
                f"each of the {len(dns)} DNS subhost settings is emitted, with its (symbolic) value, under its own lower-cased name into the dns-beacon block" if ok else f"DNS subhost settings not emitted under their own name: {_show(bad)[:400]}")
+    return sites
+
+
+# ---------------------------------------------------------------------------- R11
+# A byte argument reaches the profile text through TWO functions: the conversion the generator site applies (none, or an
+# escaper - `_conversion`) and the path of the literal encoder `value_to_string` that the resulting *type* takes (bytes
+# path / str path).  R4 judges the first on its own, C12.R1 the bytes path on its own; R11 judges the composition for a
+# value the generator has already escaped: the str path then rewrites a text that has the escaper's token structure
+# (lemma E4), and every rewrite on that path must only ever match a token the escaper emitted as a unit.
+# Lemmas (E5 is lemma L2b of rules/c12.py and is evaluated by its `_splits_escaped_backslash`):
+#  E5  str.replace(backslash + X, R) applied to escaped text: if the escaper can emit X as a plain token, the bytes
+#      (0x5c, X) give backslash backslash X and the left-to-right scan matches at the SECOND backslash - the escaped
+#      backslash is split and its first half pairs with R[0]; if the escaper always escapes X, every match is the pair.
+#      X = ' is plain for the unpinned repr (E1) and for the unicode_escape codec (E1c), never for the pinned repr (E1b)
+#  E6  str.replace(backslash, R) rewrites the token of the backslash byte (two backslashes) to R + R, which the STRING
+#      decoder reads as one backslash byte only if R is the backslash itself (the spellings of a backslash byte are two
+#      backslashes or backslash x5c, and the latter is not of the form R + R)
+#  E7  the quote escape replace('"', backslash + '"') turns the plain token `"` (never escaped by any of the three escapers)
+#      into a pair and touches nothing else; a pattern with a character outside 0x20..0x7e never matches escaped text
+_C12_NEEDS = ("_encoder_paths", "_literal_body", "_peel", "_is_raw", "_splits_escaped_backslash", "_Unsupported", "_show")
+
+
+def _c12_tools():
+    """The encoder analysis of rules/c12.py (path-wise terms of value_to_string under a named type assumption, lemma L2b)."""
+    try:
+        from rules import c12
+    except ImportError:
+        return None
+    return c12 if all(hasattr(c12, n) for n in _C12_NEEDS) else None
+
+
+def _str_path_layers(ctx):
+    """The rewrites `value_to_string` applies to a *str* argument, read from the analysed function itself: per path the
+    list of layers (outermost first) on top of the parameter -> (paths, None) or (None, why not understood)."""
+    hit = ctx.__dict__.get("_c13_str_path")
+    if hit is not None:
+        return hit
+    res = None
+    c12 = _c12_tools()
+    if c12 is None:
+        res = (None, "the encoder analysis of rules/c12.py is not available")
+    elif not ctx.repo.has_func("c2profile.value_to_string"):
+        res = (None, "the literal encoder value_to_string is not a function of c2profile any more")
+    else:
+        vf = ctx.repo.func("c2profile.value_to_string")
+        try:
+            paths = c12._encoder_paths(ctx, vf, "str")
+        except c12._Unsupported as e:
+            paths, res = [], (None, f"value_to_string is not understood by the path-wise value-flow analysis of C12 ({e})")
+        out = []
+        for (kind, val), guessed in paths:
+            bad, und = [], []
+            core = c12._literal_body(kind, val, guessed, bad, und)
+            if core is None:
+                res = (None, "for a str value value_to_string does not return the text between two double quotes (C12.R1 judges that): " + "; ".join(bad + und)[:200])
+                break
+            layers, x = c12._peel(core)
+            if guessed or not c12._is_raw(x):
+                res = (None, f"the str path of value_to_string is not a chain of rewrites of the argument ({c12._show(val)[:100]})")
+                break
+            out.append(list(layers))
+        if res is None:
+            res = (out, None) if out else (None, "value_to_string has no path for a str value")
+    ctx._c13_str_path = res
+    return res
+
+
+def _compose(c12, model: _Tokens, layers) -> Tuple[List[str], List[str]]:
+    """The rewrites of one path of value_to_string (`layers`, outermost first) applied to text emitted by escaper `model`
+    -> (violations, things not understood).  Lemmas E5 - E7."""
+    bad, und = [], []
+    clean = True  # the text still has the escaper's token structure (every rewrite so far was E7 / an always-escaped pair)
+    for k in range(len(layers) - 1, -1, -1):  # in the order of application
+        l = layers[k]
+        if l.tag != "rep":
+            und.append(f"the text passes through {c12._show(l)[-70:]}, which is not understood")
+            clean = False
+            continue
+        a, b = l.args[1], l.args[2]
+        if not isinstance(a, str) or not isinstance(b, str) or a == "":
+            und.append(f"rewrite {a!r} -> {b!r} is not understood")
+            clean = False
+            continue
+        if a == b or any(not 0x20 <= ord(c) <= 0x7E for c in a) or (a, b) == ('"', '\\"'):
+            continue  # E7
+        split = c12._splits_escaped_backslash(model, a, b, layers[k + 1:])
+        if split is not None:
+            (bad if split[0] else und).append(split[1])
+            clean = clean and split[0]
+            continue
+        if not clean:
+            und.append(f"{a!r} -> {b!r} is applied to text that was rewritten before in a way that is not understood")
+        elif a == "\\":
+            bad.append(f"replace({a!r}, {b!r}) rewrites the first character of every escape token: the backslash byte (two backslashes) becomes {b + b!r}, "
+                       f"which does not decode to one backslash byte (lemma E6), and the backslash of every other escape token becomes {b!r}")
+        elif a == "\\'" and not model.plain("'") and model.key != "mapping":
+            if b != "'":
+                bad.append(f"the escaped single quote \\' (always a pair of {model.name}) is rewritten to {b!r}: only the plain quote keeps the byte")
+        else:
+            und.append(f"the escaped text is additionally rewritten ({a!r} -> {b!r}); not known to keep the bytes")
+            clean = False
+    return bad, und
+
+
+def _method_func(ctx, cls: str, attr: str, hops=0):
+    """The package function that `attr` of builder class `cls` is (through the bases and class-level aliases); None: not found."""
+    it = _Interp(ctx, "c2profile", _Oracle())
+    for mn, cnode in it._mro(cls):
+        for st in cnode.body:
+            if isinstance(st, (ast.FunctionDef, ast.AsyncFunctionDef)) and st.name == attr:
+                return ctx.repo.module(mn).funcs.get(f"{cnode.name}.{attr}")
+            if isinstance(st, ast.Assign) and len(st.targets) == 1 and isinstance(st.targets[0], ast.Name) and st.targets[0].id == attr:
+                d = dotted(st.value)
+                if d and "." in d and hops < 4:
+                    c2, a2 = d.rsplit(".", 1)
+                    return _method_func(ctx, c2.split(".")[-1], a2, hops + 1)
+                return None
+    return None
+
+
+def _encoder_feed(ctx, builder, kind: str) -> Tuple[str, Optional[str]]:
+    """What builder parameter `builder` = (class, primitive | "steps", statement name) does with a value of Python type
+    `kind` before the literal encoder sees it: ("direct", None) - on every path the value itself, and nothing else made
+    from it, is handed to value_to_string; ("unknown", why) otherwise.  The builder is followed once with the value
+    symbolic (type tag only)."""
+    cache = ctx.__dict__.setdefault("_c13_feed_cache", {})
+    key = (builder, kind)
+    if key in cache:
+        return cache[key]
+    cls, prim, name = builder
+    v = _Val("value handed to the builder", kind)
+    try:
+        if not isinstance(cls, str) or not isinstance(name, str):
+            raise Unknown("the receiving block or the statement name is not a constant")
+        fn = _method_func(ctx, cls, "__init__" if prim == "steps" else prim)
+        if fn is None:
+            raise Unknown(f"{cls}.{'__init__' if prim == 'steps' else prim} is not a method of the package")
+        ps = params(fn.node)
+        if len(ps) < (2 if prim == "steps" else 3):
+            raise Unknown(f"signature of {fn.qualname}")
+        handed = [_Seq([(name, v)], "steps")] if prim == "steps" else [name, v]
+        runs = _run_func(ctx, fn, lambda it: [_Sym(ps[0], cls=cls)] + handed)
+        res = None
+        for r in runs:
+            if r.raised:
+                raise Unknown(f"{fn.qualname} raises {r.raised} for the value (R8 / R9)")
+            fed = [(ev.args + list(ev.kwargs.values()) + [None])[0] for ev in r.events
+                   if ev.attr == "<call>" and isinstance(ev.recv, _FnRef) and ev.recv.func.fq == "c2profile.value_to_string"]
+            other = [x for x in fed if x is not v and _depends_on(x, v)]
+            if other:
+                raise Unknown(f"{fn.qualname} converts the value before the literal encoder sees it ({_show(other[0])[:60]})")
+            if not any(x is v for x in fed):
+                raise Unknown(f"on a path of {fn.qualname} the value is not handed to value_to_string (which encoder makes the STRING token is C11.R6's question)")
+        res = ("direct", None) if runs else ("unknown", f"{fn.qualname} has no path")
+    except Unknown as e:
+        res = ("unknown", f"cannot tell which path of the literal encoder the value takes: {e}")
+    cache[key] = res
+    return res
+
+
+def r11(ctx, sites=None):
+    """Generator escaping composed with the literal encoder.  For every byte-valued setting datum that from_beacon_config
+    hands to a builder parameter (the valued steps of the two client programs, the process-inject transform arguments,
+    the pivot frame headers): (a) the conversion applied at the site (`_conversion`: none / unpinned repr slice / pinned
+    repr slice / unicode_escape codec chain), (b) the builder parameter is followed to the literal encoder (`_encoder_feed`),
+    (c) the rewrites value_to_string applies on the path the resulting type takes are read from the analysed function
+    (`_str_path_layers`, the encoder analysis of C12) and judged against the escaper's token structure (`_compose`).
+    One obligation per generator site.  A value handed over as bytes takes the bytes path, which C12.R1 decides."""
+    f = ctx.repo.func("c2profile.C2Profile.from_beacon_config")
+    if sites is None:
+        from csverif.report import Report
+
+        saved, ctx.rep = ctx.rep, Report(ctx.rep.prop, ctx.rep.tier)
+        try:
+            sites = r4_r5(ctx)
+        finally:
+            ctx.rep = saved
+    c12 = _c12_tools()
+    for label, site in sites.items():
+        text = f"{label} {site['what']} -> literal encoder"
+        # (datum, what was found about it) per verdict; data with the same finding are reported together
+        bad, und, fine = [], [("", x) for x in site["unknown"]], []
+        for datum, arg, term, builder in site["data"]:
+            kind, info, desc = _conversion(term, arg)
+            target = f"{builder[0]}(steps=..)" if builder[1] == "steps" else f"{builder[0]}.{builder[1]}"
+            if kind == "bad":
+                bad.append((datum, info))
+                continue
+            if kind not in ("identity", "escaper", "mapping"):
+                und.append((datum, f"handed to {target} as {desc}: " + {"plain": "not an escaper (R4 judges that)", "lost": "the argument is not in it (R5 judges that)"}.get(kind, "a conversion the rule does not know")))
+                continue
+            status, why = _encoder_feed(ctx, builder, "bytes" if kind == "identity" else "str")
+            if status != "direct":
+                und.append((datum, why))
+                continue
+            if kind == "identity":
+                fine.append((datum, f"handed to {target} unchanged - a bytes value takes the bytes path of value_to_string, which C12.R1 decides"))
+                continue
+            paths, why = _str_path_layers(ctx)
+            if paths is None or c12 is None:
+                und.append((datum, f"{desc} is handed to {target} as str, but {why or 'the encoder analysis of rules/c12.py is not available'}"))
+                continue
+            rewrites = sorted({f"replace({l.args[1]!r}, {l.args[2]!r})" if l.tag == "rep" else c12._show(l)[-50:] for p in paths for l in p})
+            b, u = [], []
+            for p in paths:
+                pb, pu = _compose(c12, info, p)
+                b, u = b + pb, u + pu
+            head = f"{desc} is handed to {target} as str and takes the str path of value_to_string ({', '.join(rewrites) or 'no rewrite'})"
+            if b:
+                bad.append((datum, head + ": " + "; ".join(dict.fromkeys(b))))
+            elif u:
+                und.append((datum, head + ": " + "; ".join(dict.fromkeys(u))))
+            elif kind == "mapping":
+                und.append((datum, head + ": no rewrite of that path splits an escaped backslash, but whether the mapping escapes every byte that needs escaping is not judged (R4)"))
+            else:
+                fine.append((datum, head + f": every rewrite matches whole tokens of {info.name} only (lemmas E5 - E7)"))
+
+        def grouped(found):
+            by = collections.OrderedDict()
+            for datum, what in found:
+                by.setdefault(what, [])
+                if datum and datum not in by[what]:
+                    by[what].append(datum)
+            return "; ".join((", ".join(ds) + ": " if ds else "") + what for what, ds in by.items())
+
+        if bad:
+            ctx.ob("R11", "ESC", f, text, False, (grouped(bad) + " - the argument is not byte-exact after the round trip")[:900])
+        elif und or not fine:
+            ctx.undecided("R11", "ESC", f, text, (grouped(und) or "no byte argument of the setting reaches a builder")[:700])
+        else:
+            ctx.ob("R11", "ESC", f, text, True, grouped(fine)[:700])
+    ctx.rep.count("byte_argument_sites", len(sites), floor=4)
 
 
 # ---------------------------------------------------------------------------- R6
